@@ -49,7 +49,12 @@ class Case:
 
 
 def gen_lead(rng):
-    return rng.choice(['', '\n', 'é\n  ', '<b>t</b>\n\t', '<!-- c -->', 'line1\nline2\n   ', '日本 ', '<i a="1"\n b="2">x</i>'])
+    return rng.choice(['', '\n', 'é\n  ', '<b>t</b>\n\t', '<!-- c -->', 'line1\nline2\n   ', '日本 ', '<i a="1"\n b="2">x</i>',
+                       # valid constructs whose compilation opens and closes internal state before the fault is met
+                       '<span i18n:translate=""></span>\n', '<span i18n:translate=""/><em i18n:translate=""><!--! c --></em> ',
+                       '<u metal:define-macro="lead"><span i18n:translate=""></span></u>\n ',
+                       '<div tal:switch="2"><i tal:case="2"/></div><div meta:interpolation="false">${x}</div>',
+                       '<div tal:on-error="string:e" tal:repeat="q ()"><i tal:omit-tag="">t</i></div> '])
 
 
 def expr_sites(rng, E):
@@ -184,6 +189,9 @@ LANG_FAULTS = [
     ('reserved-global-repeat', '<p tal:repeat="global __z (1,)">x</p>', r'global (__z) '),
     ('reserved-tuple-define', '<p tal:define="(b, __y) (1, 2)">x</p>', r'\(b, (__y)\)'),
     ('content-with-translate-id', '<p tal:content="a" i18n:translate="id">x</p>', r'(<p [^>]*>)'),
+    ('name-outside-translation', '<p><b i18n:name="n">x</b></p>', r'(<b [^>]*>)'),
+    ('name-outside-translation-after-block', '<p i18n:translate="">a <i i18n:name="m">1</i></p><p><b i18n:name="n">x</b></p>', r'(<b [^>]*>)'),
+    ('name-in-macro-outside-translation', '<div metal:define-macro="m"><b i18n:name="n">x</b></div>', r'(<b [^>]*>)'),
 ]
 
 
@@ -299,8 +307,10 @@ def run(ctx):
             if dsrc != lsrc and re.search(dre, dsrc, re.S):
                 lk, lsrc, locre, lcfg = lk + ':data-spelling', dsrc, dre, {'enable_data_attributes': True}
         full = lead + lsrc + rng.choice(['', '\n<p>z</p>'])
-        m = re.search(locre, full, re.S)
+        # the construct is located inside the faulty part itself (the lead may hold valid constructs of the same kind)
+        m = re.search(locre, lsrc, re.S)
         lo, hi = m.span(1)
+        lo, hi = lo + len(lead), hi + len(lead)
         ctx.mon('planted')
         ctx.cover('site', 'lang:' + lk)
         res = None
